@@ -22,8 +22,10 @@ EXHAUSTIVE = {
              "outer-ring pixels included); public derive_* views and check_if_edge_pixel: all masks with H*W <= 9; blurring "
              "(util and public alternating): all masks with H*W <= 9 x kernels (1,1), (3,3) and every other one of (1,3), (3,1), "
              "and all 3x4 / 4x3 masks x kernel (3,3)",
-    "thorough": "util on all masks of all shapes with H*W <= 12 (35 978 masks) and on all 4x4, 3x5 and 5x3 masks, public views on all of these, "
-                "blurring on all masks H*W <= 12 x kernels {1,3,5}^2 and on all 5x5 masks with a masked outer ring x kernels {1,3,5}^2",
+    "thorough": "util on all masks of all shapes with H*W <= 12 (35 978 masks) and on all 4x4, 3x5 and 5x3 masks; public views on all "
+                "masks with H*W <= 12 and on every other 4x4 / 3x5 / 5x3 mask; blurring on all masks with H*W <= 9 x kernels {1,3,5}^2, on all "
+                "masks with 10 <= H*W <= 12 x kernel (3,3) and one more kernel of {1,3,5}^2 in rotation, and on all 5x5 masks with a masked "
+                "outer ring x kernels {1,3,5}^2",
 }
 TRUSTED = ["correspondence harness harness/c10.py (mask/array printing; grid coordinates are doubled and must be integers, "
            "asserted exactly with fractions.Fraction)",
@@ -125,7 +127,8 @@ def gen_inputs(tier, rng):
                     if k[0] != k[1] and i % 2: continue
                     yield {"op": "blurutil" if (i // 2) % 2 else "blur", "m": ms, "k": k}
             elif big:
-                for k in itertools.product([1, 3, 5], repeat=2):
+                ks9 = list(itertools.product([1, 3, 5], repeat=2))
+                for k in (ks9 if h * w <= 9 else [(3, 3), ks9[i % 9]]):
                     i += 1
                     yield {"op": "blurutil" if i % 2 else "blur", "m": ms, "k": list(k)}
             elif (h, w) in ((3, 4), (4, 3)):
@@ -136,7 +139,7 @@ def gen_inputs(tier, rng):
             for ms in all_masks(h, w):
                 i += 1
                 yield {"op": "util", "m": ms, "buffer": i % 3}
-                yield {"op": "views", "m": ms, "g": GEOMS[i % 4]}
+                if i % 2: yield {"op": "views", "m": ms, "g": GEOMS[(i // 2) % 4]}
         for ms in all_masks(3, 3):
             for k in itertools.product([1, 3, 5], repeat=2):
                 i += 1
